@@ -31,7 +31,7 @@ def legs(tier, seed, scratch):
         tool = build.bin_path("bedtobigbed")
         cols = list(range(0, 41)) if tier != "quick" else [0, 1, 2, 3, 5, 8, 9, 10, 12, 13, 14, 20, 40]
         for n in cols:
-            for mode in ("generated", "supplied", "supplied_crlf"):
+            for mode in ("generated", "supplied", "supplied_crlf", "supplied_snake_case"):
                 rng = random.Random("%s:%s:%s" % (seed, n, mode))
                 d = os.path.join(scratch, "c19_%d_%s" % (n, mode))
                 os.makedirs(d, exist_ok=True)
@@ -50,6 +50,9 @@ def legs(tier, seed, scratch):
                 if mode.startswith("supplied"):
                     supplied = "table mine%d\n\"My α schema\"\n(\n string chrom; \"c\"\n uint chromStart; \"s\"\n uint chromEnd; \"e\"\n%s)\n" % (
                         n, "".join(" lstring extra%d; \"x\"\n" % i for i in range(n)))
+                    if mode == "supplied_snake_case":
+                        # identifiers with underscores, as real-world schemas have them
+                        supplied = supplied.replace("table mine", "table my_table").replace(" lstring extra", " lstring gene_name")
                     if mode == "supplied_crlf":
                         # a .as file saved with DOS line endings: same schema, same declared field count
                         supplied = supplied.replace("\n", "\r\n")
